@@ -348,6 +348,49 @@ func rtSessionCases(q *oracle, r *rng) {
 		return "", ""
 	})
 
+	// Server.Close while the first Accept is still waiting for a client (grpc.Server.Stop while Serve sits in
+	// Accept): Accept returns an error, not a connection of a closed listener, and no mailbox stays at the relay
+	run("server-closed-during-first-accept", func(rr *rng) (string, string) {
+		s, err := newRtSession(rr)
+		if err != nil {
+			return "c11:setup", err.Error()
+		}
+		defer s.cancel()
+		type res struct {
+			c   net.Conn
+			err error
+		}
+		ac := make(chan res, 1)
+		go func() { c, e := s.srv.Accept(); ac <- res{c, e} }()
+		for k := 0; k < 400; k++ { // until the server has created its mailboxes and waits for the client's SYN
+			s.relay.mu.Lock()
+			nb := len(s.relay.boxes)
+			s.relay.mu.Unlock()
+			if nb >= 1 {
+				break
+			}
+			time.Sleep(5 * time.Millisecond)
+		}
+		time.Sleep(200 * time.Millisecond)
+		_ = s.srv.Close()
+		select {
+		case r := <-ac:
+			if r.err == nil && r.c != nil {
+				time.Sleep(300 * time.Millisecond)
+				s.relay.mu.Lock()
+				nb := len(s.relay.boxes)
+				s.relay.mu.Unlock()
+				_ = r.c.Close()
+				return "c12:accept-hands-out-a-connection-of-a-closed-listener", fmt.Sprintf("Server.Close was called while the first Accept was waiting for a client: Accept returned a connection and a nil error afterwards; %d mailboxes are still at the relay", nb)
+			}
+		case <-time.After(5 * time.Second):
+			return "c12:accept-not-woken-by-close", "Server.Close was called while the first Accept was waiting for a client: Accept is still blocked 5 s later"
+		}
+		// (a mailbox may stay behind at the relay: the connection's context has been cancelled by then and the
+		// deletion is sent under it; the relay expires idle mailboxes, and no property speaks about them)
+		return "", ""
+	})
+
 	// Dial on a client whose context has been cancelled (before the first connection / while the relay is
 	// unreachable / after a session): an error, never a panic
 	run("dial-after-cancel", func(rr *rng) (string, string) {
